@@ -120,6 +120,117 @@ Proof.
   assert (0 < 10 ^ p) by (apply Z.pow_pos_nonneg; lia). change (10 ^ 9) with 1000000000 in *. lia.
 Qed.
 
+Lemma rnd64_format : forall y, generic_format radix2 fexp64 y -> rnd64 y = y.
+Proof. intros y H. unfold rnd64. apply round_generic; [apply valid_rnd_N | exact H]. Qed.
+
+(* a double minus an integer just below it is a double *)
+Lemma sub_int_exact : forall (x : f64) w, is_finite x = true -> 0 <= w ->
+  (IZR w <= B2R x < IZR w + 1)%R -> generic_format radix2 fexp64 (B2R x - IZR w).
+Proof.
+  intros x w Fx Hw0 Hw.
+  destruct (FLT_format_B2R 53 1024 Hprec64 x) as [[mf ef] E Hm He].
+  cbn [Fnum Fexp] in Hm, He. rewrite E in *. unfold F2R in *. cbn [Fnum Fexp] in *.
+  assert (Hbp : (0 < bpow radix2 ef)%R) by apply bpow_gt_0.
+  assert (Hmf : 0 <= mf).
+  { apply le_IZR. assert (0 <= IZR w)%R by (apply IZR_le; lia).
+    apply Rmult_le_reg_r with (bpow radix2 ef); [exact Hbp | lra]. }
+  destruct (Z_le_gt_dec 0 ef) as [Ep | En].
+  - (* an integer: equal to w *)
+    rewrite <- IZR_Zpower in * by exact Ep. rewrite <- mult_IZR in *.
+    assert (mf * radix2 ^ ef = w).
+    { apply Z.le_antisymm; [| apply le_IZR; lra].
+      assert (mf * radix2 ^ ef < w + 1); [| lia]. apply lt_IZR. rewrite plus_IZR. lra. }
+    rewrite H. rewrite Rminus_diag_eq by reflexivity. apply generic_format_0.
+  - apply generic_format_FLT.
+    exists (Float radix2 (mf - w * 2 ^ (- ef)) ef).
+    + unfold F2R. cbn [Fnum Fexp]. rewrite minus_IZR, mult_IZR.
+      change (2 ^ (- ef)) with (radix2 ^ (- ef)).
+      rewrite (IZR_Zpower radix2 (- ef)) by lia.
+      rewrite Rmult_minus_distr_r, Rmult_assoc, <- bpow_plus.
+      replace (- ef + ef) with 0 by lia. cbn [bpow]. ring.
+    + cbn [Fnum].
+      assert (H2 : 0 < 2 ^ (- ef)) by (apply Z.pow_pos_nonneg; lia).
+      assert (Hlow : w * 2 ^ (- ef) <= mf).
+      { apply le_IZR. rewrite mult_IZR. change (2 ^ (- ef)) with (radix2 ^ (- ef)). rewrite (IZR_Zpower radix2 (- ef)) by lia.
+        apply Rmult_le_reg_r with (bpow radix2 ef); [exact Hbp |].
+        rewrite Rmult_assoc, <- bpow_plus. replace (- ef + ef) with 0 by lia. cbn [bpow]. lra. }
+      assert (0 <= w * 2 ^ (- ef)) by (apply Z.mul_nonneg_nonneg; lia). lia.
+    + cbn [Fexp]. exact He.
+Qed.
+
+(* the largest double below 1 *)
+Definition fpred1 : f64 := f_of_Z2 9007199254740991 (-53).
+
+Lemma fpred1_val : is_finite fpred1 = true /\ B2R fpred1 = (1 - bpow radix2 (-53))%R.
+Proof.
+  unfold fpred1, f_of_Z2.
+  pose proof (binary_normalize_correct 53 1024 Hprec64 Hemax64 mode_NE 9007199254740991 (-53) false) as H.
+  cbv zeta in H.
+  assert (E : F2R (Float radix2 9007199254740991 (-53)) = (1 - bpow radix2 (-53))%R).
+  { unfold F2R. cbn [Fnum Fexp]. replace 9007199254740991 with (9007199254740992 - 1) by reflexivity.
+    rewrite minus_IZR. change 9007199254740992 with (radix2 ^ 53). rewrite IZR_Zpower by lia.
+    rewrite Rmult_minus_distr_r, <- bpow_plus. simpl (53 + -53). simpl (bpow radix2 0). simpl (IZR 1). ring. }
+  rewrite E in H.
+  change (round radix2 (SpecFloat.fexp 53 1024) (round_mode mode_NE) (1 - bpow radix2 (-53))) with (rnd64 (1 - bpow radix2 (-53))) in H.
+  assert (G : rnd64 (1 - bpow radix2 (-53)) = (1 - bpow radix2 (-53))%R).
+  { unfold rnd64. apply round_generic; [apply valid_rnd_N |]. rewrite <- E. apply generic_format_FLT.
+    exists (Float radix2 9007199254740991 (-53)); [reflexivity | simpl; lia | simpl; lia]. }
+  rewrite G in H.
+  assert (B : (0 < bpow radix2 (-53) < 1)%R).
+  { split; [apply bpow_gt_0 |]. change 1%R with (bpow radix2 0). apply bpow_lt. lia. }
+  rewrite Rlt_bool_true in H.
+  - destruct H as [H1 [H2 _]]. split; assumption.
+  - rewrite Rabs_pos_eq by lra. apply Rlt_trans with 1%R; [lra |].
+    change 1%R with (bpow radix2 0). apply bpow_lt. lia.
+Qed.
+
+Local Instance fexp64_valid : Valid_exp fexp64.
+Proof. unfold fexp64. apply FLT_exp_valid. reflexivity. Qed.
+
+(* a double below 1 is at most pred 1 *)
+Lemma below_one : forall d : f64, is_finite d = true -> (B2R d < 1)%R -> (B2R d <= B2R fpred1)%R.
+Proof.
+  intros d Fd H. destruct fpred1_val as [_ R1]. rewrite R1.
+  assert (Fm : generic_format radix2 fexp64 (B2R d)) by (apply generic_format_B2R).
+  assert (F1 : generic_format radix2 fexp64 1) by (change 1%R with (IZR 1); apply format_IZR; reflexivity).
+  pose proof (pred_ge_gt radix2 fexp64 (B2R d) 1 Fm F1 H) as P.
+  change 1%R with (bpow radix2 0) in P.
+  rewrite pred_bpow in P.
+  change (fexp64 0) with (-53) in P. simpl (bpow radix2 0) in P. exact P.
+Qed.
+
+(* (pred 1) * 10^p rounds below 10^p: checked by computation for p = 1..9 *)
+Lemma pred1_pow_lt : forall p, 1 <= p <= 9 -> flt (fmul fpred1 (pow10_tab p)) (pow10_tab p) = true.
+Proof.
+  intros p Hp.
+  assert (H : p = 1 \/ p = 2 \/ p = 3 \/ p = 4 \/ p = 5 \/ p = 6 \/ p = 7 \/ p = 8 \/ p = 9) by lia.
+  repeat (destruct H as [-> | H]; [vm_compute; reflexivity |]). subst p. vm_compute. reflexivity.
+Qed.
+
+(* a fraction below 1 times 10^p rounds below 10^p (p = 1..9) *)
+Lemma tmp_lt_pow : forall (d : f64) p, is_finite d = true -> (0 <= B2R d < 1)%R -> 1 <= p <= 9 ->
+  (rnd64 (B2R d * IZR (10 ^ p)) < IZR (10 ^ p))%R.
+Proof.
+  intros d p Fd Hd Hp.
+  destruct fpred1_val as [F1 R1].
+  destruct (pow10_tab_repr p ltac:(lia)) as [Fpw Rpw].
+  pose proof (pow10_bounds p ltac:(lia)) as HP.
+  assert (HPR : (1 <= IZR (10 ^ p))%R) by (apply IZR_le; lia).
+  assert (B : (0 < bpow radix2 (-53) < 1)%R).
+  { split; [apply bpow_gt_0 |]. change 1%R with (bpow radix2 0). apply bpow_lt. lia. }
+  assert (Hb : (0 <= rnd64 (B2R fpred1 * B2R (pow10_tab p)) <= IZR (10 ^ p))%R).
+  { apply rnd64_between; [reflexivity | change (2 ^ 53) with 9007199254740992; lia |].
+    rewrite Rpw, R1. simpl (IZR 0). split.
+    - apply Rmult_le_pos; lra.
+    - rewrite <- (Rmult_1_l (IZR (10 ^ p))) at 2. apply Rmult_le_compat_r; lra. }
+  destruct (fmul_real fpred1 (pow10_tab p) (10 ^ p) F1 Fpw ltac:(change (2 ^ 53) with 9007199254740992; lia) Hb) as [Fm Rm].
+  pose proof (pred1_pow_lt p Hp) as L. unfold flt in L.
+  rewrite Bltb_correct in L by assumption. rewrite Rm, Rpw in L.
+  destruct (Rlt_bool_spec (rnd64 (B2R fpred1 * IZR (10 ^ p))) (IZR (10 ^ p))) as [L' | L']; [| discriminate].
+  apply Rle_lt_trans with (rnd64 (B2R fpred1 * IZR (10 ^ p))); [| exact L'].
+  apply rnd64_le. apply Rmult_le_compat_r; [lra |]. apply below_one; [exact Fd | lra].
+Qed.
+
 Lemma stage_bounds : forall v p, is_finite v = true -> 0 <= p <= 9 ->
   match dtoa_stage v p with
   | None => (2147483647 < B2R (if flt v fzero then fneg v else v))%R
@@ -127,12 +238,12 @@ Lemma stage_bounds : forall v p, is_finite v = true -> 0 <= p <= 9 ->
                (ds_whole0 st <= 2147483647 ->
                is_finite (ds_value st) = true /\
                0 <= ds_whole0 st /\ ds_whole0 st <= ds_whole st <= ds_whole0 st + 1 /\
-               0 <= ds_frac st <= 10 ^ p /\
+               0 <= ds_frac st <= 10 ^ p /\ (1 <= p -> ds_frac st < 10 ^ p) /\
                ((B2R (ds_value st) <= 2147483647)%R -> ds_whole st <= 2147483647) /\
                ds_value st = (if flt v fzero then fneg v else v))
   end.
 Proof.
-  intros v p Fv Hp. unfold dtoa_stage.
+  intros v p Fv Hp. unfold dtoa_stage, dtoa_stage_gen.
   destruct (abs_value v Fv) as [Fval Pval]. cbv zeta in Fval, Pval.
   set (value := if flt v fzero then fneg v else v) in *.
   destruct (trunc_bounds value Fval Pval) as [w [Ew [Hw0 Hw]]]. rewrite Ew.
@@ -148,6 +259,8 @@ Proof.
   assert (Hd0 : (0 <= rnd64 (B2R value - B2R (f_of_Z w)) <= IZR 1)%R).
   { apply rnd64_between; [reflexivity | reflexivity |]. rewrite Rfw. simpl. lra. }
   destruct (fsub_real value (f_of_Z w) 1 Fval Ffw ltac:(reflexivity) Hd0) as [Fd Rd].
+  assert (Hdx : (0 <= B2R (fsub value (f_of_Z w)) < 1)%R).
+  { rewrite Rd, Rfw, (rnd64_format _ (sub_int_exact value w Fval Hw0 Hw)). lra. }
   set (d := fsub value (f_of_Z w)) in *.
   (* tmp = d * 10^p *)
   destruct (pow10_tab_repr p Hp) as [Fpw Rpw].
@@ -162,6 +275,9 @@ Proof.
   rewrite <- Rt in Ht0.
   destruct (trunc_bounds tmp Ft (proj1 Ht0)) as [f0 [Ef [Hf0 Hf]]]. rewrite Ef.
   assert (Hf1 : f0 <= 10 ^ p) by (apply le_IZR; lra).
+  assert (Hlt : 1 <= p -> f0 < 10 ^ p).
+  { intros P1. apply lt_IZR. apply Rle_lt_trans with (B2R tmp); [lra |].
+    rewrite Rt, Rpw. apply tmp_lt_pow; [exact Fd | exact Hdx | lia]. }
   assert (Hff : reprZ (f_of_Z f0) f0) by (apply f_of_Z_repr; change (2 ^ 53) with 9007199254740992; lia).
   destruct Hff as [Fff Rff].
   assert (Hdf0 : (0 <= rnd64 (B2R tmp - B2R (f_of_Z f0)) <= IZR 1)%R).
@@ -170,38 +286,48 @@ Proof.
   set (diff := fsub tmp (f_of_Z f0)) in *.
   assert (Hmod : (f0 + 1) mod W32 = f0 + 1) by (unfold W32; apply Z.mod_small; lia).
   rewrite Hmod.
+  assert (Hf1r : reprZ (f_of_Z (f0 + 1)) (f0 + 1)) by (apply f_of_Z_repr; change (2 ^ 53) with 9007199254740992; lia).
+  rewrite (fle_repr _ _ _ _ (pow10_tab_repr p Hp) Hf1r).
+  (* w = INT_MAX with value <= INT_MAX forces diff = 0 *)
+  assert (Hdiff0 : w = 2147483647 -> (B2R value <= 2147483647)%R -> B2R diff = 0%R).
+  { intros Ew' Hle.
+    assert (Ex : (B2R value - B2R (f_of_Z w) = 0)%R) by (rewrite Rfw, Ew' in *; lra).
+    assert (Ed0 : B2R d = 0%R) by (rewrite Rd, Ex; apply rnd64_0).
+    assert (Et : B2R tmp = 0%R) by (rewrite Rt, Ed0, Rmult_0_l; apply rnd64_0).
+    assert (Ef0 : f0 = 0) by (apply Z.le_antisymm; [apply le_IZR; rewrite Et in Hf; lra | exact Hf0]).
+    rewrite Rdf, Et, Rff, Ef0. simpl. rewrite Rminus_0_r. apply rnd64_0. }
+  destruct fhalf_val as [Fh Rh].
   destruct (flt fhalf diff) eqn:Ehalf.
-  - assert (Hf1r : reprZ (f_of_Z (f0 + 1)) (f0 + 1)) by (apply f_of_Z_repr; change (2 ^ 53) with 9007199254740992; lia).
-    rewrite (fle_repr _ _ _ _ (pow10_tab_repr p Hp) Hf1r).
-    assert (Hnomax : w < 2147483647 \/ ~ (B2R value <= 2147483647)%R).
+  - assert (Hnomax : w < 2147483647 \/ ~ (B2R value <= 2147483647)%R).
     { destruct (Z_lt_ge_dec w 2147483647) as [L | G]; [left; exact L | right].
-      intros Hle. assert (Ew' : w = 2147483647) by lia.
-      assert (Ex : (B2R value - B2R (f_of_Z w) = 0)%R) by (rewrite Rfw, Ew' in *; lra).
-      rewrite Ex, rnd64_0 in Rd.
-      assert (Et : B2R tmp = 0%R) by (rewrite Rt, Rd, Rmult_0_l; apply rnd64_0).
-      assert (Ef0 : f0 = 0) by (apply Z.le_antisymm; [apply le_IZR; rewrite Et in Hf; lra | exact Hf0]).
-      assert (Edf : B2R diff = 0%R) by (rewrite Rdf, Et, Rff, Ef0; simpl; rewrite Rminus_0_r; apply rnd64_0).
-      destruct fhalf_val as [Fh Rh]. unfold flt in Ehalf.
-      rewrite Bltb_correct in Ehalf by assumption. rewrite Edf, Rh in Ehalf.
+      intros Hle. pose proof (Hdiff0 ltac:(lia) Hle) as Edf.
+      unfold flt in Ehalf. rewrite Bltb_correct in Ehalf by assumption. rewrite Edf, Rh in Ehalf.
       rewrite Rlt_bool_false in Ehalf by lra. discriminate. }
     destruct (Z.leb_spec (10 ^ p) (f0 + 1)); cbn [ds_whole0 ds_whole ds_frac ds_value];
       (split; [intros _; exact Hw1 |]); intros _;
       (split; [exact Fval |]); (repeat split; try lia; try reflexivity);
       intros Hle; destruct Hnomax as [L | G]; try lia; contradiction.
-  - destruct (feq diff fhalf && ((f0 =? 0) || Z.odd f0)) eqn:Etie;
-      cbn [ds_whole0 ds_whole ds_frac ds_value]; (split; [intros _; exact Hw1 |]); intros _;
-      (split; [exact Fval |]);
-      [| repeat split; try lia; reflexivity].
+  - destruct (feq diff fhalf && ((f0 =? 0) || Z.odd f0)) eqn:Etie.
+    2:{ cbn [ds_whole0 ds_whole ds_frac ds_value]. split; [intros _; exact Hw1 |]. intros _.
+        split; [exact Fval |]. repeat split; try lia; try reflexivity. }
     apply andb_prop in Etie. destruct Etie as [Etie _].
-    assert (f0 < 10 ^ p); [| repeat split; try lia; reflexivity].
-    destruct (Z_lt_ge_dec f0 (10 ^ p)) as [L | G]; [exact L | exfalso].
-    assert (Ef0 : f0 = 10 ^ p) by lia.
-    assert (Ez : (B2R tmp - B2R (f_of_Z f0) = 0)%R).
-    { rewrite Rff, Ef0. rewrite Ef0 in Hf. lra. }
-    rewrite Ez, rnd64_0 in Rdf.
-    destruct fhalf_val as [Fh Rh]. unfold feq in Etie.
-    rewrite Beqb_correct in Etie by assumption. rewrite Rdf, Rh in Etie.
-    rewrite Req_bool_false in Etie by lra. discriminate.
+    unfold feq in Etie. rewrite Beqb_correct in Etie by assumption. rewrite Rh in Etie.
+    destruct (Req_bool_spec (B2R diff) (/ 2)) as [Ehd | Ehd]; [| discriminate].
+    assert (Hf2 : f0 < 10 ^ p).
+    { destruct (Z_lt_ge_dec f0 (10 ^ p)) as [L | G]; [exact L | exfalso].
+      assert (Ef0 : f0 = 10 ^ p) by lia.
+      assert (Ez : (B2R tmp - B2R (f_of_Z f0) = 0)%R).
+      { rewrite Rff, Ef0. rewrite Ef0 in Hf. lra. }
+      rewrite Rdf, Ez, rnd64_0 in Ehd. lra. }
+    assert (Hnomax : w < 2147483647 \/ ~ (B2R value <= 2147483647)%R).
+    { destruct (Z_lt_ge_dec w 2147483647) as [L | G]; [left; exact L | right].
+      intros Hle. pose proof (Hdiff0 ltac:(lia) Hle) as Edf. lra. }
+    cbn [andb].
+    destruct (Z.ltb_spec 0 p); cbn [andb];
+      [destruct (Z.leb_spec (10 ^ p) (f0 + 1)) |]; cbn [ds_whole0 ds_whole ds_frac ds_value];
+      (split; [intros _; exact Hw1 |]); intros _;
+      (split; [exact Fval |]); (repeat split; try lia; try reflexivity);
+      intros Hle; destruct Hnomax as [L | G]; try lia; contradiction.
 Qed.
 
 Lemma frac_loop_spec : forall fuel frac count done buf,
@@ -375,13 +501,13 @@ Lemma dtoa_shape_lemma : forall v p0, is_finite v = true ->
   | _ => True
   end.
 Proof.
-  intros v p0 Fv. unfold modp_dtoa. rewrite (feq_finite_refl v Fv). cbn [negb].
+  intros v p0 Fv. unfold modp_dtoa, modp_dtoa_with. rewrite (feq_finite_refl v Fv). cbn [negb].
   pose proof (clamp_range p0) as Hp. set (p := clamp_prec p0) in *.
   pose proof (stage_bounds v p Fv Hp) as SB.
   destruct (dtoa_stage v p) as [st |]; [| exact I].
   destruct SB as [_ SB].
   destruct (Z.ltb_spec 2147483647 (ds_whole0 st)) as [W0 | W0]; [exact I |].
-  destruct (SB W0) as [Fval [B0 [B1 [B2 [B3 B4]]]]]. clear SB.
+  destruct (SB W0) as [Fval [B0 [B1 [B2 [B2' [B3 B4]]]]]]. clear SB.
   destruct (Z.ltb_spec 2147483647 (ds_whole st)) as [W1 | W1]; [exact I |].
   destruct (flt thres_max (ds_value st)); [exact I |].
   destruct (Z.eqb_spec p 0) as [P0 | P0].
@@ -472,7 +598,7 @@ Proof.
   intros v p0 Fv Hthres.
   pose proof (dtoa_shape_lemma v p0 Fv) as SH.
   assert (Hcase : match modp_dtoa v p0 with DT_sprintf | DT_overflow => False | _ => True end).
-  { unfold modp_dtoa. rewrite (feq_finite_refl v Fv). cbn [negb].
+  { unfold modp_dtoa, modp_dtoa_with. rewrite (feq_finite_refl v Fv). cbn [negb].
     pose proof (clamp_range p0) as Hp. set (p := clamp_prec p0) in *.
     pose proof (stage_bounds v p Fv Hp) as SB.
     destruct (abs_value v Fv) as [Fval _]. cbv zeta in Fval.
@@ -480,7 +606,7 @@ Proof.
     destruct (dtoa_stage v p) as [st |]; [| exact (Rlt_not_le _ _ SB Hle)].
     destruct SB as [SB0 SB]. specialize (SB0 Hle).
     destruct (Z.ltb_spec 2147483647 (ds_whole0 st)) as [W0 | W0]; [lia |].
-    destruct (SB W0) as [_ [_ [_ [_ [B3 B4]]]]]. rewrite B4 in *. specialize (B3 Hle).
+    destruct (SB W0) as [_ [_ [_ [_ [_ [B3 B4]]]]]]. rewrite B4 in *. specialize (B3 Hle).
     destruct (Z.ltb_spec 2147483647 (ds_whole st)) as [W1 | W1]; [lia |].
     rewrite Hthres.
     destruct (if p =? 0 then _ else _) as [[buf whole] |]; [| exact I].
